@@ -89,13 +89,40 @@ def three_decks_across_a_bin(k, seed):
     return _df(rows), {'k': k, 'seed': seed, 'layout': f'three_decks_across_a_bin({a},{b}x{nb},{c},{order})', 'ceilos': ['A', 'B'], 'rows': len(rows), 'lim': lim}
 
 
+def thin_deck_below_ragged_deck(k, seed):
+    """two decks seen alternately by four instruments in one group: a very thin lower one and a thicker upper one whose few lowest
+    hits sit well below its bulk -- with BASE_LVL_HEIGHT_PERC = 0 the upper base is its lowest hit"""
+    rng = random.Random(seed * 73 + k)
+    gap = rng.choice([310., 290., 330.])
+    rows = []
+    for c in range(4):
+        for t in range(80):
+            if (t + c) % 2 == 0:
+                h = 1000. + rng.choice([-5., 0., 5.])
+            else:
+                h = float(round(1000. + gap + 30. * rng.gauss(0, 1)))
+            rows.append((f'ceilo{c}', -1200. + 15. * t + c, h, 1))
+    order = rng.choice(['ascending', 'descending', 'shuffled'])
+    if order == 'descending':
+        rows.sort(key=lambda r: -r[1])
+    elif order == 'shuffled':
+        rng.shuffle(rows)
+    else:
+        rows.sort(key=lambda r: r[1])
+    return _df(rows), {'k': k, 'seed': seed, 'layout': f'thin_deck_below_ragged_deck({gap},{order})', 'ceilos': [f'ceilo{c}' for c in range(4)], 'rows': len(rows)}
+
+
 def check(k, seed):
     rng = random.Random(seed * 5 + k)
     kind = k % 6
     if k % 12 == 7:
         kind = 6
+    if k % 12 == 3:
+        kind = 7
     if kind == 6:
         df, desc = three_decks_across_a_bin(k, seed)
+    elif kind == 7:
+        df, desc = thin_deck_below_ragged_deck(k, seed)
     elif kind == 4:
         df, desc = converging_sublayers(k, seed)
     elif kind == 5:
@@ -112,6 +139,10 @@ def check(k, seed):
         prms['EXCLUDE_FOR_BASE_HEIGHT_CALC'] = [desc['ceilos'][-1]]
     if kind == 6:
         prms = {'MIN_SEP_VALS': [250, 1000], 'MIN_SEP_LIMS': [10000]} if desc['lim'] == 10000 else {'MIN_SEP_VALS': [250, 600, 1000], 'MIN_SEP_LIMS': [3000, 10000]}
+        excl = False
+    if kind == 7:
+        prms = {'MIN_SEP_VALS': [250, 1000], 'MIN_SEP_LIMS': [10000], 'BASE_LVL_HEIGHT_PERC': rng.choice([0, 0, 5, 100]),
+                'BASE_LVL_LOOKBACK_PERC': rng.choice([100, 60])}
         excl = False
     if kind in (4, 5):
         for key in ('MAX_HITS_OKTA0', 'MAX_HOLES_OKTA8', 'BASE_LVL_HEIGHT_PERC', 'MIN_SEP_VALS', 'MIN_SEP_LIMS'):
@@ -146,7 +177,7 @@ def check(k, seed):
             for a, b in zip(lb, lb[1:]):
                 # "no sub-layers re-merged" is observable only for 3 of 3 components, or for the designed two-sub-layer scenes
                 # (a 2-layer split there comes from the 2-component model: nothing re-merged)
-                if b - a < ms - 1e-9 and (int(grow['ncomp']) == 3 or kind == 4 or _two_distinct(data, grow)):
+                if b - a < ms - 1e-9 and (int(grow['ncomp']) == 3 or kind in (4, 7) or _two_distinct(data, grow)):
                     fails.append(f'layers of group {grow["cluster_id"]} at {a:.1f} and {b:.1f} ft are {b-a:.1f} ft apart, minimum {ms}')
     return desc, prms, fails, None
 
